@@ -198,6 +198,20 @@ func vhParseTy(toks []string) (FType, []string) {
 		var n int
 		fmt.Sscan(t[3:], &n)
 		return newFFunc(list(n)), rest
+	case strings.HasPrefix(t, "rc:"):
+		// rc:NAME:n  a generic record NAME<t1..tn> (one field per type argument; registered so that
+		// transRecType finds its info)
+		parts := strings.Split(t, ":")
+		var n int
+		fmt.Sscan(parts[2], &n)
+		targs := list(n)
+		rt := RecordType{Name: parts[1], Targs: targs}
+		var fields []NameTypePair
+		for i, a := range targs {
+			fields = append(fields, NameTypePair{Name: fmt.Sprintf("F%d", i), Ftype: a})
+		}
+		updateRecInfo(rt, RecordTypeInfo{Fields: fields})
+		return New_FType_FRecord(rt), rest
 	}
 	panic("vhParseTy: unknown token " + t)
 }
@@ -225,6 +239,8 @@ func vhShowTy(t FType) string {
 		return fmt.Sprintf("tu:%d", len(v.Value.ElemTypes)) + many(v.Value.ElemTypes)
 	case FType_FFunc:
 		return fmt.Sprintf("fn:%d", len(v.Value.Targets)) + many(v.Value.Targets)
+	case FType_FRecord:
+		return fmt.Sprintf("rc:%s:%d", v.Value.Name, len(v.Value.Targs)) + many(v.Value.Targs)
 	}
 	return fmt.Sprintf("?%v", t)
 }
